@@ -6,7 +6,7 @@ pid, f = sys.argv[1], sys.argv[2]
 d = json.load(open(f))
 props = json.load(open('/verif/props.json'))
 e = {"claim": d["claim"], "not_covered": d["not_covered"]}
-for k in ("packages", "engines", "bounded", "storesites"):
+for k in ("packages", "engines", "bounded", "storesites", "closerpairs"):
     if k in d: e[k] = d[k]
 props[pid] = e
 json.dump(props, open('/verif/props.json', 'w'), indent=1)
